@@ -36,6 +36,10 @@ CHECKS = {
   technique="deterministic simulation with storage-fault injection: valid generated world + 1-3 files damaged by seeded truncation (statement/byte), splice, lost block, bit flips, undecodable bytes, empty/binary/directory, unbalanced END, misplaced CONTAINS, malformed-construct grammar, or a simulated errno at open(); placed first/between/last in the read order; real Project()+correlate()+markdown() per variant in forked children of one cold process under a sys.monitoring step budget and a wall watchdog; differential oracle against the same world without the damaged files; sampled cold full-HTML runs",
   text="Enumerates corruption kinds x positions over generated worlds; for each, the canonical dump (entities, attributes, docs, resolved references, page stems, per-kind lists) of every valid file must equal the dump with the damaged files absent, rejected files must be named in the diagnostics, the parse must finish within a deterministic step budget, and nothing may abort the run while reading. Crashes in correlate caused by a damaged file FORD's parser *accepted* are tallied as out of scope (premise: 'cannot be parsed').",
   note="step budget counts line events in FORD's reader/parser/project modules only; wall watchdog max(10 s, 200 x fault-free); input lines <= 2 KB; damaged files use an identifier prefix the valid world never uses"),
+"C17": dict(level="exploration", design="5.6",
+  technique="deterministic simulation (narrow): seeded permutation of every listdir/scandir result and torn page files (title-loss: emptied, cut inside/before the metadata header, damaged key, leading blank line) on leaf pages, sub-directory index.md and first/last siblings; real get_page_tree() per variant in forked children of a cold process vs a reference model of the page tree; sampled cold full runs check pages 1:1, copied files/copy_subdir and every link and |page|/|media|/|url| alias from every depth",
+  text="Seeded search over generated page directories (depth <= 4, index present/absent/title-less, hidden and ~ files, ordered_subpage valid/partial/duplicate/naming missing entries, copy_subdir, other files) x enumeration orders x torn-file sets; the real tree must equal the model under every order and every torn file must be reported without losing siblings. Narrow claim: most of C17 is a function of the directory tree; simulation contributes enumeration order and torn files.",
+  note="trusts the ~60-line page-tree model (fordsim/pagemodel.py); names are three-letter lower-case words; only title-loss faults are injected; copy_subdir directories never hold an index.md"),
 }
 m = {"version":1,
  "setup_cmd":"/venv/bin/python -c 'import ford, sys; print(ford.__file__)' && command -v dot setarch >/dev/null && mkdir -p /dev/shm/fordsim",
